@@ -1,0 +1,43 @@
+//go:build verif
+
+package endpoint
+
+// Contracts for the deductive verifier in /verif (govc); comments only.
+// flagInt/flagStr/fmtEndpoint/normWeight: /verif/specs/endpoint.gvs (property C18).
+//
+//@ func (Endpoint).String
+//@   trusted
+//@   pure
+//@   ensures [C18] result == fmtEndpoint(e.Proto, e.Host, e.Port, e.Timeout)
+//@   safety [C18]
+//
+//@ func Parse
+//@   witness s = endpoint
+//@   allocates
+//@   ensures [C18] result.Host == flagStr(endpoint, 1, "h", "")
+//@   ensures [C18] result.Bind == flagStr(endpoint, 1, "b", "")
+//@   ensures [C18] result.Port == s32(flagInt(endpoint, 1, "p", 0)) && result.Timeout == s32(flagInt(endpoint, 1, "t", 3000))
+//@   ensures [C18] result.Grid == s32(flagInt(endpoint, 1, "g", 0)) && result.Qos == s32(flagInt(endpoint, 1, "q", 0))
+//@   ensures [C18] result.WeightType == s32(flagInt(endpoint, 1, "v", 0)) && result.AuthType == s32(flagInt(endpoint, 1, "e", 0))
+//@   ensures [C18] result.Weight == s32(normWeight(flagInt(endpoint, 1, "w", 0 - 1), flagInt(endpoint, 1, "v", 0)))
+//@   ensures [C18] (len(endpoint) >= 3 && endpoint[0:3] == "tcp") ==> (result.Istcp == 1 && result.Proto == "tcp")
+//@   ensures [C18] (len(endpoint) >= 3 && endpoint[0:3] == "ssl") ==> (result.Istcp == 2 && result.Proto == "tcp")
+//@   ensures [C18] (len(endpoint) >= 3 && endpoint[0:3] == "udp") ==> (result.Istcp == 0 && result.Proto == "udp")
+//@   ensures [C18] result.Key == fmtEndpoint(result.Proto, result.Host, result.Port, result.Timeout)
+//@   safety [C18]
+//
+//@ func Tars2endpoint
+//@   pure
+//@   ensures [C18] result.Host == end.Host && result.Port == end.Port && result.Timeout == end.Timeout && result.Istcp == end.Istcp
+//@   ensures [C18] result.Grid == end.Grid && result.Qos == end.Qos && result.Weight == end.Weight && result.WeightType == end.WeightType
+//@   ensures [C18] result.AuthType == end.AuthType && result.SetId == end.SetId
+//@   ensures [C18] result.Proto == (end.Istcp == 0 ? "udp" : "tcp")
+//@   ensures [C18] result.Key == fmtEndpoint(result.Proto, result.Host, result.Port, result.Timeout)
+//@   safety [C18]
+//
+//@ func Endpoint2tars
+//@   pure
+//@   ensures [C18] result.Host == end.Host && result.Port == end.Port && result.Timeout == end.Timeout && result.Istcp == end.Istcp
+//@   ensures [C18] result.Grid == end.Grid && result.Qos == end.Qos && result.Weight == end.Weight && result.WeightType == end.WeightType
+//@   ensures [C18] result.AuthType == end.AuthType && result.SetId == end.SetId
+//@   safety [C18]
